@@ -13,7 +13,7 @@ import (
 
 func main() {
 	r := ev.New("C16", "exploration",
-		"CenterVertically/ReplaceLastLine on every geometry: prefix 0..P lines (0 = empty string), centred 1..C, suffix 0..S, height 2..H with distinct line tokens; every frame the real UI emits for terminal heights {2,3,4,5,9} (quick) / 2..9 (thorough) x 4 start commands x every key sequence of length <=2 (quick) / <=3 (thorough) over {j,k,space,1,Enter,:,x,Esc,o,g} plus a resize; "+
+		"CenterVertically/ReplaceLastLine on every geometry: prefix 0..P lines (0 = empty string), centred 1..C, suffix 0..S, height 2..H with distinct line tokens; every frame the real UI emits for terminal heights {2,3,4,5,9} (quick) / 2..9 (thorough) x 4 start commands x every key sequence of length <=2 (quick) / <=3 (thorough) over {j,k,space,1,Enter,:,x,Esc,o,g} plus resizes, an epilogue of keys after each and a failing viewer; the built servitor program (package main unchanged) on pseudo-terminals of 5 (quick) / 8 (thorough) sizes with 13 keys before and after a resize; "+
 			"distinct_nontrivial counts geometries where the centred block is shorter than the screen (so buffers must be computed)")
 	if *ev.FlagReplay != "" {
 		var d struct {
@@ -21,6 +21,22 @@ func main() {
 		}
 		var raw map[string]any
 		ev.LoadReplay(*ev.FlagReplay, &raw)
+		if isE2E, _ := raw["e2e"].(bool); isE2E {
+			e2ePart(r) // a handful of sessions: run the part whole
+			r.Eval(1)
+			r.Distinct("x")
+			r.Distinct("y")
+			r.Finish()
+		}
+		if c, ok := raw["case"].(map[string]any); ok {
+			if isE2E, _ := c["e2e"].(bool); isE2E {
+				e2ePart(r)
+				r.Eval(1)
+				r.Distinct("x")
+				r.Distinct("y")
+				r.Finish()
+			}
+		}
 		if _, isUI := raw["ui_start"]; isUI {
 			var u struct {
 				Start uimodel.Start `json:"ui_start"`
@@ -70,5 +86,6 @@ func main() {
 	r.Sample(map[string]any{"prefix_lines": 3, "centred_lines": 2, "suffix_lines": 5, "height": 7})
 	r.Extra["bounds"] = map[string]int{"prefix": P, "centred": C, "suffix": S, "height": H}
 	framesPart(r)
+	e2ePart(r)
 	r.Finish()
 }
